@@ -34,18 +34,20 @@ func (o Op) String() string {
 
 // Plan is everything that is decided before the first scheduling step.
 type Plan struct {
-	Prop       string         `json:"prop"`
-	Shape      string         `json:"shape"` // seq | small | large
-	Cap        int            `json:"cap"`
-	NKeys      int            `json:"nkeys"`
-	Callback   bool           `json:"callback"`
-	Sys        bool           `json:"systematic,omitempty"`    // a case of the systematic corpus (every short sequence)
-	MixedKeys  bool           `json:"mixed_keys,omitempty"`    // keys of different dynamic types whose printed forms collide
-	CallbackAt int            `json:"callback_at,omitempty"`   // single client: the callback is registered just before this operation index (0: before the first)
-	TypedVals  bool           `json:"typed_values,omitempty"`  // stored values are strings, Stringers, errors and Formatters with the same text (C10n formatted some of them outside the lock)
-	Bystander  int            `json:"bystander_ops,omitempty"` // > 0: a second, independent cache instance is used at the same time (that many operations)
-	Clients    [][]Op         `json:"clients"`
-	Cfg        simsync.Config `json:"cfg"`
+	Prop        string         `json:"prop"`
+	Shape       string         `json:"shape"` // seq | small | large
+	Cap         int            `json:"cap"`
+	NKeys       int            `json:"nkeys"`
+	Callback    bool           `json:"callback"`
+	Sys         bool           `json:"systematic,omitempty"`           // a case of the systematic corpus (every short sequence)
+	MixedKeys   bool           `json:"mixed_keys,omitempty"`           // keys of different dynamic types whose printed forms collide
+	CallbackAt  int            `json:"callback_at,omitempty"`          // single client: the callback is registered just before this operation index (0: before the first)
+	CBFailEvery int            `json:"callback_fails_every,omitempty"` // > 0: every n-th invocation of the removal callback (per client) misbehaves after taking its note, see CBFail
+	CBFail      string         `json:"callback_fail,omitempty"`        // "panic": it panics, the client recovers and goes on using the cache; "goexit": it ends its goroutine (what t.FailNow does), the others go on; "reregister": it registers itself again through SetDelCallBackFn (a one-shot or self-replacing callback)
+	TypedVals   bool           `json:"typed_values,omitempty"`         // stored values are strings, Stringers, errors and Formatters with the same text (C10n formatted some of them outside the lock)
+	Bystander   int            `json:"bystander_ops,omitempty"`        // > 0: a second, independent cache instance is used at the same time (that many operations)
+	Clients     [][]Op         `json:"clients"`
+	Cfg         simsync.Config `json:"cfg"`
 }
 
 func (p *Plan) NOps() int {
@@ -263,6 +265,10 @@ func GenC09(r *detsim.Rand, tier string) *Plan {
 		p.Callback = true
 	}
 	p.TypedVals = r.Chance(1, 4)
+	if p.Callback && r.Chance(1, 8) {
+		p.CBFailEvery = 1 + r.Intn(3)
+		p.CBFail = []string{"panic", "goexit", "reregister"}[r.Weighted([]int{5, 2, 3})]
+	}
 	return p
 }
 
@@ -296,6 +302,13 @@ func genCfg(r *detsim.Rand, nClients, estSteps int, pyields bool) simsync.Config
 func GenC10(r *detsim.Rand, tier string, forceShape string) *Plan {
 	p := genC10(r, tier, forceShape)
 	p.TypedVals = r.Chance(1, 3)
+	if p.Callback && r.Chance(1, 8) {
+		p.CBFailEvery = 1 + r.Intn(3)
+		p.CBFail = []string{"panic", "reregister", "goexit"}[r.Weighted([]int{5, 3, 2})]
+		if p.CBFail == "goexit" && p.Shape != "large" {
+			p.CBFail = "panic" // a client that ends in the middle of an operation: only where invariants at quiescence are the oracle
+		}
+	}
 	return p
 }
 
